@@ -136,6 +136,12 @@ func minimise(t *testing.T, sc *Scenario, plan Plan, prop, clause string) (*Scen
 		if r.Harness == nil && hasClause(r.Violations, prop, clause) != nil {
 			return r
 		}
+		if os.Getenv("VERIF_DEBUG") != "" {
+			fmt.Fprintf(os.Stderr, "minimise: candidate does not fail: harness=%v violations=%v\n", r.Harness, r.Violations)
+			if _, err := os.Stat(os.Getenv("VERIF_DEBUG")); err != nil {
+				_ = os.WriteFile(os.Getenv("VERIF_DEBUG"), []byte(strings.Join(r.Log, "\n")+"\n"), 0o644)
+			}
+		}
 		return nil
 	}
 	best := fails(sc, plan)
@@ -301,6 +307,9 @@ func TestSim(t *testing.T) {
 						break
 					}
 				}
+				if *fLogs != "" {
+					_ = os.WriteFile(filepath.Join(*fLogs, fmt.Sprintf("%s-%d-%d.replay.log", *fProperty, *fSeed, run)), []byte(strings.Join(rr.Log, "\n")+"\n"), 0o644)
+				}
 				out.Harness = append(out.Harness, fmt.Sprintf("run %d: replay of the recorded plan diverges from the exploration run at %s", run, d))
 			}
 		}
@@ -327,6 +336,26 @@ func TestSim(t *testing.T) {
 			reported[key] = true
 			// minimise and write the replay file
 			msc, mplan, mres := minimise(t, cloneScenario(sc), res.Recorded, v.Property, v.Clause)
+			stable := func(s *Scenario, pl Plan, digest string) *RunResult {
+				var last *RunResult
+				for i := 0; i < 2; i++ {
+					r := RunScenario(t, cloneScenario(s), &pl, nil)
+					if r.Harness != nil || r.Digest != digest || hasClause(r.Violations, v.Property, v.Clause) == nil {
+						return nil
+					}
+					last = r
+				}
+				return last
+			}
+			if mres != nil && stable(msc, mplan, mres.Digest) == nil {
+				// The minimised schedule only fails some of the time (the system under test has choices the
+				// simulator does not own, e.g. select among channels that are ready at once): fall back to
+				// the schedule as recorded.
+				msc, mplan, mres = cloneScenario(sc), res.Recorded, nil
+				if r := RunScenario(t, cloneScenario(sc), &res.Recorded, nil); r.Harness == nil && hasClause(r.Violations, v.Property, v.Clause) != nil && stable(sc, res.Recorded, r.Digest) != nil {
+					mres = r
+				}
+			}
 			rf := ReplayFile{Version: 1, Property: v.Property, Profile: p.Name, Seed: *fSeed, Run: run, RunSeed: rs, Scenario: msc, Plan: mplan, Clause: v.Clause, Detail: v.Detail}
 			if mres != nil {
 				rf.Digest = mres.Digest
@@ -334,8 +363,13 @@ func TestSim(t *testing.T) {
 					rf.Detail = mv.Detail
 				}
 			} else {
-				// could not reproduce under replay: report as harness trouble, never as a violation
-				out.Harness = append(out.Harness, fmt.Sprintf("run %d: violation %s did not reproduce under replay of its recorded plan", run, v))
+				// no recorded schedule reproduces it reliably: the replay file re-runs the exploration run
+				// itself (seed and run index decide everything the simulator owns)
+				_ = os.MkdirAll(*fReplays, 0o755)
+				path := filepath.Join(*fReplays, fmt.Sprintf("%s-%d-%d-%s.json", v.Property, *fSeed, run, v.Clause))
+				b, _ := json.MarshalIndent(map[string]any{"version": 1, "mode": "rerun", "property": v.Property, "profile": p.Name, "seed": *fSeed, "run": run, "tier": *fTier, "clause": v.Clause, "detail": v.Detail}, "", " ")
+				_ = os.WriteFile(path, b, 0o644)
+				out.Violations = append(out.Violations, ReportedV{Violation: v, Replay: path, Run: run})
 				continue
 			}
 			_ = os.MkdirAll(*fReplays, 0o755)
@@ -395,10 +429,23 @@ func replayFile(t *testing.T) {
 		rs := RunSeed(rf.Seed, uint64(mode.Run))
 		ps := profiles[rf.Property]
 		p := profileFor(ps, mode.Run)
-		sc, ex := p.Gen(NewRNG(rs).Derive(0), rs, "quick")
+		tier := "quick"
+		var m2 struct {
+			Tier string `json:"tier"`
+		}
+		if json.Unmarshal(b, &m2) == nil && m2.Tier != "" {
+			tier = m2.Tier
+		}
+		sc, ex := p.Gen(NewRNG(rs).Derive(0), rs, tier)
 		res := RunScenario(t, sc, nil, ex)
 		for _, l := range res.Log {
 			fmt.Println(l)
+		}
+		if rf.Clause != "process-crash" {
+			if v := hasClause(res.Violations, rf.Property, rf.Clause); v != nil {
+				fmt.Printf("REPLAY-REPRODUCED %s\n", v)
+				return
+			}
 		}
 		fmt.Printf("REPLAY-NO-VIOLATION (the run completed without crashing the process; violations: %v)\n", res.Violations)
 		os.Exit(3)
